@@ -27,6 +27,7 @@ def plan(tier, seed):
         specs += ec.fixture_specs()
     for p in range(2):
         specs.append(dict(name="helper-%d" % p, mode="interp", what="helper", part=p, parts=2, full=not q, seed=[seed, 77, p]))
+    specs.append(dict(name="nan", mode="interp", what="nan", n=6 if q else 30, seed=[seed, 77777, 0]))
     for p in range(2 if q else 6):
         specs.append(dict(name="sweep-%d" % p, mode="interp", what="sweep", n=3 if q else 8, seed=[seed, 7777, p]))
     for p in range(4 if q else 8):
@@ -244,7 +245,27 @@ def run_sweep(spec, res):
         res.count("buffer_reuse_sequences")
 
 
+def run_nan(spec, res):
+    """Joint runs in which a later series has a missing sample in its first window.  The library refuses such data (the mixture
+    model raises); should it ever accept them, the array it clusters must still be the per-series stacking of the input."""
+    rng = np.random.default_rng(spec["seed"])
+    wc.NW_CAP[0] = 6
+    cases = []
+    for i in range(spec["n"]):
+        c = wc.gen_joint(rng, "joint")
+        c["data"]["flavor"] = "plain"
+        c["data"]["nan_gap"] = True
+        c["limit"] = 2
+        c["eps"] = 0.0
+        cases.append(c)
+    e2e_check.run_cases(res, cases, PROPS, lambda run, I: None, coverage_props=())
+    res.count("joint_runs_with_a_missing_sample", len(cases))
+
+
 def run_shard(spec, res):
+    if spec["what"] == "nan":
+        run_nan(spec, res)
+        return
     if spec["what"] == "sweep":
         run_sweep(spec, res)
         return
